@@ -3,7 +3,7 @@
    three mappers (argument isolator, call isolator, conditional-expression expander) share it. *)
 From Coq Require Import List ZArith NArith String Ascii Bool Arith Lia Permutation.
 Import ListNotations.
-From Dagrt Require Import Lang LangProofs Sched Transform TransformSem TransformBasics TransformHoist.
+From Dagrt Require Import Lang LangProofs Sched Transform TransformSem TransformSide TransformBasics TransformHoist.
 
 Definition swr (n : tstmt) : list var := kind_writes (tkd n).
 
